@@ -330,7 +330,10 @@ func c18Run(pint, dir string, deadline time.Duration, args ...string) (exit int,
 	defer cancel()
 	cmd := exec.CommandContext(ctx, pint, args...)
 	cmd.Dir = dir
-	cmd.Env = []string{"PATH=" + os.Getenv("PATH"), "HOME=" + dir, "LC_ALL=C", "TZ=UTC", "NO_PROXY=*"}
+	// GOMAXPROCS=1: a panic in a scan worker runs the deferred wg.Done() before the runtime aborts, which lets
+	// the main goroutine finish and exit 0 first on a busy multi-core box (seen in ~0.4% of crashing runs);
+	// with one P the panicking goroutine is not overtaken (0 of 1500), so the crash observation is stable.
+	cmd.Env = []string{"PATH=" + os.Getenv("PATH"), "HOME=" + dir, "LC_ALL=C", "TZ=UTC", "NO_PROXY=*", "GOMAXPROCS=1"}
 	var se bytes.Buffer
 	cmd.Stderr = &se
 	e := cmd.Run()
